@@ -1,8 +1,13 @@
 """Implementation runner for C02: build metamodels from generated one-rule grammars, report the inferred
 multiplicities, load inputs, report attribute values (or the error) and the assignment events of the parse tree."""
 import json
+import os
 import signal
 import sys
+
+sys.path.insert(0, os.path.dirname(os.path.dirname(os.path.abspath(__file__))))
+import pegdump  # noqa: E402
+import mmdump  # noqa: E402
 
 import textx.model as tmodel
 from textx import metamodel_from_str
@@ -65,12 +70,18 @@ def events(node, out):
     if rn.startswith("__asgn"):
         op = rn.split("_")[-1]
         attr = node.rule._attr_name
+        # children of an assignment node: a child is a separator node exactly when the expression that produced it is
+        # the separator of this repetition (a fact about the parse tree, independent of how the builder tells them)
+        sep = getattr(node.rule, "sep", None) if op in ("oneormore", "zeroormore") else None
         if op == "optional":
-            out.append([attr, op, []])
+            kids = [[False, n.rule_name == "sep", canon(term_value(n))] for n in node]
+            out.append([attr, op, [], kids, False])
+            return
         elif op == "plain":
-            out.append([attr, op, [canon(term_value(node[0]))]])
+            kids = [[False, node[0].rule_name == "sep", canon(term_value(node[0]))]]
         else:
-            out.append([attr, op, [canon(term_value(n)) for n in node if n.rule_name != "sep"]])
+            kids = [[sep is not None and n.rule is sep, n.rule_name == "sep", canon(term_value(n))] for n in node]
+        out.append([attr, op, [c for s, _, c in kids if not s], kids, sep is not None])
         return
     if hasattr(node, "__iter__") and not isinstance(node, str) and type(node).__name__ == "NonTerminal":
         for n in node:
@@ -104,8 +115,20 @@ def main():
             res["gerr"] = ["CRASH:" + type(e).__name__, None, str(e)[:160]]
             continue
         cls = mm["Model"]
+        # the parser model and the per-node metamodel information of the shared PEG core (for the link check)
+        dump = None
+        if case.get("link"):
+            try:
+                dump = pegdump.dump_metamodel(mm)
+                res["link"] = {"dump": dump.to_json(), "mm": mmdump.dump_mm(mm, dump),
+                               "model_nid": dump.idmap.get(id(cls._tx_peg_rule)), "tables": []}
+            except pegdump.Unsupported as e:
+                dump = None
+                res["link"] = {"unsupported": str(e)[:120]}
         res["attrs"] = [[name, a.mult, a.cls.__name__, bool(a.bool_assignment)] for name, a in cls._tx_attrs.items()]
         for inp in case["inputs"]:
+            if dump is not None:
+                res["link"]["tables"].append(dump.oracle_table(inp))
             del captured[:]
             run = {"ok": False, "err": None, "vals": None, "trace": None}
             res["runs"].append(run)
